@@ -11,8 +11,13 @@ from kern2 import Snap, area2, cross3, fr_tok
 
 SPEC = {
     "lean_modules": ["Honeycomb.Props.C13", "Honeycomb.Props.C13b", "Honeycomb.Props.C13c", "Honeycomb.Props.C13d",
-                     "Honeycomb.Props.C13e", "Honeycomb.Props.C13f"],
-    "required_theorems": ["C13_check_requirements_ok_iff", "C13_shoelace_step", "C13_earclip_area_sum",
+                     "Honeycomb.Props.C13e", "Honeycomb.Props.C13f", "Honeycomb.Props.C13Gen"],
+    # Gen/Fan.lean is re-translated from honeycomb-kernels/src/triangulation/fan.rs and mod.rs before every build
+    "gen": ["fan"],
+    "required_theorems": [
+        # Props/C13Gen.lean: check_requirements and BOTH fan kernels as translated ARE the model's (program equality, loop by induction)
+        "C13_gen_check_requirements", "C13_gen_fan_loop_step", "C13_gen_fan_loop", "C13_gen_fanFrom_convex", "C13_gen_fanFrom_cell", "C13_gen_fanConvex", "C13_gen_check_requirements_ok_iff", "C13_gen_fanTest", "C13_gen_fan", "C13_gen_fan_kernel_star",
+        "C13_check_requirements_ok_iff", "C13_shoelace_step", "C13_earclip_area_sum",
                           "C13_fan_area_sum", "C13_fan_star_sees_every_side", "C13_fan_apex_sees_all",
                           "C13_earclip_preserves_WF", "C13_fan_preserves_WF", "C13_fan_convex_preserves_WF",
                           "C13_fan_preserves_WF_closed_face", "C13_fan_structure", "C13_fan_convex_structure",
